@@ -812,6 +812,64 @@ fn keeper_config_instances(ctx: &Ctx) -> u64 {
 /// (j) a helper call that PANICS (an address helper given a prefix no codec accepts - it always
 /// panicked) must leave nothing behind: the same short history and the same helper calls give the
 /// same transcript before it, after it on the same thread, and after it on another thread.
+/// (k) two Apps on one thread whose banks describe the same denomination differently (or not at
+/// all): what each tells about the denomination, asked in every order, is what it tells alone.
+fn bank_metadata_instances(ctx: &Ctx) -> u64 {
+    use cosmwasm_std::{DenomMetadata, PageRequest};
+    fn build(cfg: u8) -> App {
+        AppBuilder::new().build(|router, _, storage| {
+            if cfg > 0 {
+                let meta = DenomMetadata { description: format!("description {}", cfg), denom_units: vec![], base: "x".into(), display: format!("display {}", cfg), name: "x".into(), symbol: "X".into(), uri: String::new(), uri_hash: String::new() };
+                router.bank.set_denom_metadata(storage, "x".into(), meta).unwrap();
+            }
+            if cfg == 3 {
+                router.bank.set_denom_metadata(storage, "y".into(), DenomMetadata { description: "only here".into(), denom_units: vec![], base: "y".into(), display: "y".into(), name: "y".into(), symbol: "Y".into(), uri: String::new(), uri_hash: String::new() }).unwrap();
+            }
+        })
+    }
+    fn ask(app: &App) -> String {
+        let single = app.wrap().query_denom_metadata("x").map_err(|e| e.to_string());
+        let other = app.wrap().query_denom_metadata("y").map_err(|e| e.to_string());
+        let all = app.wrap().query_all_denom_metadata(PageRequest { key: None, limit: 100, reverse: false }).map(|r| r.metadata).map_err(|e| e.to_string());
+        format!("x: {:?} y: {:?} all: {:?}", single, other, all)
+    }
+    let solos: Vec<String> = (0..4u8).map(|c| std::thread::spawn(move || ask(&build(c))).join().unwrap()).collect();
+    let mut n = 0;
+    for a in 0..4u8 {
+        for b in 0..4u8 {
+            for order in 0..3u8 {
+                // 0: build A, ask A, build B, ask B, ask A; 1: build both, ask A, B, A; 2: build both, ask B, A, B
+                let got: Vec<(u8, String)> = std::thread::spawn(move || {
+                    let mut out = vec![];
+                    if order == 0 {
+                        let x = build(a);
+                        out.push((a, ask(&x)));
+                        let y = build(b);
+                        out.push((b, ask(&y)));
+                        out.push((a, ask(&x)));
+                    } else {
+                        let (x, y) = (build(a), build(b));
+                        let seq: [(u8, &App); 3] = if order == 1 { [(a, &x), (b, &y), (a, &x)] } else { [(b, &y), (a, &x), (b, &y)] };
+                        for (k, app) in seq {
+                            out.push((k, ask(app)));
+                        }
+                    }
+                    out
+                })
+                .join()
+                .unwrap();
+                n += 1;
+                for (i, (k, ans)) in got.iter().enumerate() {
+                    if *ans != solos[*k as usize] {
+                        ctx.violation("c19:instances-interfere:denomination-metadata", json!({"configurations (0: none, 1..3: own description of x; 3 also describes y)": [a, b], "order": order, "answer_no": i, "got": ans, "alone": solos[*k as usize]}));
+                    }
+                }
+            }
+        }
+    }
+    n
+}
+
 fn after_a_panicking_helper(ctx: &Ctx) -> u64 {
     use cw_multi_test::{IntoAddr, IntoBech32, IntoBech32m};
     fn transcript() -> Vec<String> {
@@ -887,6 +945,7 @@ pub fn run_c19(ctx: &Ctx) -> i32 {
     let replaced_pairs = replaced_instances(ctx);
     let admin_pairs = admin_history_instances(ctx);
     let keeper_pairs = keeper_config_instances(ctx);
+    let metadata_runs = bank_metadata_instances(ctx);
     // (d) replay validation of an explicit-state exploration: states reached through snapshot
     // restore must equal the states reached by replaying their histories on one App
     let (regcov, _) = crate::reg::explore_registry(ctx, ctx.tier.pick(3, 4));
@@ -900,7 +959,7 @@ pub fn run_c19(ctx: &Ctx) -> i32 {
         "rule": "(a) every history over the operation alphabet up to the length bound, run on two independently built Apps, transcripts (results, events, data, code ids, addresses, checksums, invocation traces, final raw dump) compared; (b) every ordered pair of shorter histories on two Apps in one thread under every interleaving, each transcript compared with its solo transcript; (0) the same with a second, differently configured App (other bonded denomination, unbonding time, rate, commission, balances): solo transcripts of both configurations, and every pair of short histories under every interleaving and both construction orders; (c') histories with caught failures on one thread, directly and from another thread under extra stack frames, in this process (RUST_BACKTRACE=0) and in a second one with RUST_BACKTRACE=1: all four transcripts equal (the transcript includes every Reply verbatim - gas_used and error texts too - and the error texts of malformed and unanswerable queries); (c) digest of everything recomputed in a second OS process with 3 worker threads, which uses the two configurations in the opposite order; distinct_nontrivial = distinct transcripts",
         "exhaustive": true,
         "histories": out.histories, "history_pairs": out.pairs, "interleaved_runs": out.interleaved_runs,
-        "digest": mine, "digest_second_process": other, "environment_histories": eh.len(), "address_codec_call_sequences_each_on_its_own_thread": codec_seqs, "code_id_pairs_in_two_apps_each_on_its_own_thread": code_id_pairs, "snapshot_pairs_replaced_in_place_and_swapped": replaced_pairs, "contract_info_script_pairs_in_two_apps": admin_pairs, "wasm_keeper_configuration_pairs": keeper_pairs,
+        "digest": mine, "digest_second_process": other, "environment_histories": eh.len(), "address_codec_call_sequences_each_on_its_own_thread": codec_seqs, "code_id_pairs_in_two_apps_each_on_its_own_thread": code_id_pairs, "snapshot_pairs_replaced_in_place_and_swapped": replaced_pairs, "contract_info_script_pairs_in_two_apps": admin_pairs, "wasm_keeper_configuration_pairs": keeper_pairs, "denomination_metadata_runs_of_two_apps": metadata_runs,
         "registry_exploration_replayed": {"states": regcov["states"], "replays": regcov["traces_validated_against_impl"], "mismatches": regcov["replay_mismatches (hidden state; reported by C19)"]},
         "alphabet": ALL.iter().map(|o| format!("{:?}", o)).collect::<Vec<_>>(),
         "caps_hit": [],
